@@ -8,6 +8,7 @@ INT, REAL, BOOL = z3.IntSort(), z3.RealSort(), z3.BoolSort()
 R6 = z3.Function("R6", REAL, REAL)  # round(x, 6)
 PYMOD = z3.Function("pymod", INT, INT, INT)  # Python a % b on ints (elementwise use; scalars use quotient witnesses)
 PYDIV = z3.Function("pydiv", INT, INT, INT)
+RDIV = z3.Function("rdiv", REAL, REAL, REAL)  # opt-in abstraction of x / y by a symbolic y (units whose argument never looks inside the quotient)
 
 _oid = itertools.count(1)
 
